@@ -76,9 +76,10 @@ func vfCloneReceipt(r *Receipt) *Receipt {
 
 // C19.d: single-field mutation of a receipt; the merkle bytes (and the leaf digest ReceiptMerkle.GetHash) change iff the
 // field is consensus-relevant in that format version:
-//   both versions: contract address, status, tx hash, fee, cumulative fee, bloom, number of events, every event field
-//                  (address, name, args, tx hash, index), and Ret unless status == ERROR
-//   V2 only:       GasUsed, FeeDelegation (V1 leaves them out by design: they did not exist before the V2 fork)
+//
+//	both versions: contract address, status, tx hash, fee, cumulative fee, bloom, number of events, every event field
+//	               (address, name, args, tx hash, index), and Ret unless status == ERROR
+//	V2 only:       GasUsed, FeeDelegation (V1 leaves them out by design: they did not exist before the V2 fork)
 func VF_C19_d() {
 	l := vf.Param("baseLen", 2)
 	maxLen := vf.Param("maxLen", 2)
